@@ -46,7 +46,7 @@ def run(tier, seed):
             ("getx2", None, 200), ("tut1x1", None, 100)]
     if not quick:
         # generated suites (random setup DAGs, vf/parse/gensuite.py)
-        plan += [("gen:%d:%d" % (seed + 401 + i, 2 + i % 2), None, 120) for i in range(6)]
+        plan += [("gen:%d:%d" % (seed + 401 + i, 2 + i % 2), None, 150) for i in range(3)]
     return D.generic_run(PID, tier, seed, plan, make_jobs, signature, describe, explore_plan=D.explore_plan(tier, ['NoC03'], retries=True),
                          rule="randomized schedules x max_tries {1,2,3} x max_concurrent_tries x pool_scope subsets x lxc/remote worker sets x "
                               "initial pools; TLC validates start counts per test and reuse scope, scan-found => not executed, clone sources never executed")
